@@ -38,6 +38,11 @@ PINNED = {
         }
     ],
     "C14": [
+        # D23: the position feature switched off, then the internal format
+        {
+            "world": dict(_PIN_BASE, ndim=3, shape=[2, 6, 6], seg=True, nodes={"1": {"t": 0, "pix": [[1, 1]]}, "2": {"t": 1, "pix": [[2, 2]]}}, edges=[[1, 2]], subscribers=0),
+            "ops": [{"op": "disable", "keys": ["@pos"], "unknown": False, "allow_ids": False}, {"op": "reimport", "fmt": "internal"}],
+        },
         # D21: the empty solution (reachable: delete every node) and the CSV / GEFF channel
         {
             "world": dict(_PIN_BASE, ndim=3, shape=[2, 6, 6], seg=True, nodes={}, edges=[], subscribers=0),
